@@ -17,11 +17,19 @@
 //
 //   - oracle: every tenant's requests (build-up, then its clients' scripts one after the other) are
 //     run on another fresh node; every answer and the final shard directories must be equal;
-//   - model: the lines `w=<client> u=… op` are given to the Lean model client by client (one
-//     linearisation; C16_concurrent proves that the answers to a tenant do not depend on which one).
+//   - model: the CONCURRENT model is run on the schedule the storm produced. The client wrapper reads a
+//     global sequence counter just before it sends a request and just after it has the answer (t0, t1):
+//     request A is known to precede request B iff t1(A) < t0(B); requests whose windows overlap were
+//     in flight together. Every line `w=<client> u=… op t=<t0>:<t1> r=<answer>` carries the window and
+//     the real answer; `semadriver C16` searches for SOME schedule of the two-atomic-step transition
+//     system `crun` (look-up step + handler step per collection-scoped request — the system
+//     C16_concurrent / C16_any_interleaving are about) that respects this partial order and each
+//     client's own order and reproduces every answer, runs `crun` on it and prints its answers; the
+//     line `storm end` is answered "ok" iff such a linearisation exists.
 //
-// Op lines:  `storm begin` … `w=K u=<hex> <op>` … `storm end`.  A replay runs the clients between the
-// two markers side by side again (the interleaving itself is up to the scheduler).
+// Op lines:  `storm begin` … `w=K u=<hex> <op> t=<t0>:<t1> r=<answer>` … `storm end`.  A replay runs the
+// clients between the two markers side by side again (the interleaving itself is up to the scheduler;
+// the stamps of the file are ignored).
 package main
 
 import (
@@ -29,6 +37,7 @@ import (
 	"sort"
 	"strings"
 	"sync"
+	"sync/atomic"
 
 	"verifharness/vh"
 )
@@ -142,25 +151,39 @@ func (sc stormScenario) users() []string {
 	return us
 }
 
+// the window of one request of the concurrent phase: values of the global sequence counter read just
+// before the request was sent and just after its answer was received
+type window struct{ t0, t1 uint64 }
+
 // run the clients side by side on e; answers per worker
 func runStorm(e *env, workers [][]op) [][]string {
+	res, _ := runStormTimed(e, workers)
+	return res
+}
+
+func runStormTimed(e *env, workers [][]op) ([][]string, [][]window) {
+	var seq atomic.Uint64
+	wins := make([][]window, len(workers))
 	res := make([][]string, len(workers))
 	var wg sync.WaitGroup
 	start := make(chan struct{})
 	for i, script := range workers {
 		res[i] = make([]string, len(script))
+		wins[i] = make([]window, len(script))
 		wg.Add(1)
 		go func(i int, script []op) {
 			defer wg.Done()
 			<-start
 			for j, o := range script {
+				t0 := seq.Add(1)
 				res[i][j] = e.exec(o)
+				wins[i][j] = window{t0, seq.Add(1)}
 			}
 		}(i, script)
 	}
 	close(start)
 	wg.Wait()
-	return res
+	return res, wins
 }
 
 // one storm scenario: emits its lines, evaluates the oracle; returns whether it saw a violation
@@ -175,15 +198,23 @@ func doStorm(o *vh.Out, sc stormScenario, variant string, shardTimeout int, si i
 		o.Emit(p.kind, p.line(), setupRes[i], true)
 		lines = append(lines, p.line())
 	}
-	res := runStorm(e, sc.workers)
+	res, wins := runStormTimed(e, sc.workers)
 	o.Emit("storm", "storm begin", "ok", false)
 	lines = append(lines, "storm begin")
+	overlaps := 0
 	for i, script := range sc.workers {
 		for j, p := range script {
-			o.Emit("storm-"+p.kind, p.line(), res[i][j], true)
+			// the window and the real answer travel with the op line: the driver needs them to look for a
+			// linearisation of the concurrent model (spaces of the answer as '_')
+			l := fmt.Sprintf("%s t=%d:%d r=%s", p.line(), wins[i][j].t0, wins[i][j].t1, strings.ReplaceAll(res[i][j], " ", "_"))
+			o.Emit("storm-"+p.kind, l, res[i][j], true)
 			lines = append(lines, p.line())
+			if wins[i][j].t1 > wins[i][j].t0+1 {
+				overlaps++ // some other request started or ended inside this one's window
+			}
 		}
 	}
+	o.Stats["storm-requests-overlapping-another"] += overlaps
 	o.Emit("storm", "storm end", "ok", false)
 	lines = append(lines, "storm end")
 	users := sc.users()
